@@ -252,6 +252,10 @@ type c05Eng struct {
 	// keeps denoting "the parameter after default normalisation" when the variable is later reused
 	// for a derived quantity (a count clamped to the lines that remain, ...).
 	shadow map[string]string
+	// tmpDeps: for the temporary holding the result of an inlined pure call, the variables its arguments mention ("?" = unknown)
+	tmpDeps map[string][]string
+	// wanted: the functions the invariant rule analyses (their proofs assume count parameters >= 0)
+	wanted map[*FuncInfo]bool
 	// ctx: helpers that have no proof of their own (their parameters carry facts only the callers know);
 	// they are always inlined, and the hooks run inside them while the caller's final pass is emitting
 	ctx      map[*FuncInfo]bool
@@ -665,6 +669,20 @@ func (e *c05Eng) linOf(fr *c05Frame, st *c05State, x ast.Expr) c05Lin {
 				case "min", "max":
 					k := e.tmp(types.ExprString(t))
 					res := c05Top()
+					var deps []string
+					for _, a := range t.Args {
+						for at := range e.linOf(fr, st, a).t {
+							if c05IsTmp(at) {
+								deps = append(deps, "?")
+							} else {
+								deps = append(deps, at)
+							}
+						}
+					}
+					if e.tmpDeps == nil {
+						e.tmpDeps = map[string][]string{}
+					}
+					e.tmpDeps[k] = deps
 					for i, a := range t.Args {
 						av := e.evalLin(st, e.linOf(fr, st, a))
 						if i == 0 {
@@ -680,8 +698,33 @@ func (e *c05Eng) linOf(fr *c05Frame, st *c05State, x ast.Expr) c05Lin {
 		}
 		if fn := calleeOf(fr.info, t); fn != nil {
 			if fi := e.c.P.FuncOfObj(fn); fi != nil && fi.Pkg == e.pk && fi.Decl.Body != nil {
+				var deps []string
+				if len(e.storesOf(fi)) > 0 {
+					deps = append(deps, "?")
+				}
+				for _, a := range t.Args {
+					if !isIntegerExpr(fr.info, a) {
+						deps = append(deps, "?")
+						continue
+					}
+					for at := range e.linOf(fr, st, a).t {
+						if c05IsTmp(at) {
+							if d2, ok := e.tmpDeps[at]; ok {
+								deps = append(deps, d2...)
+							} else {
+								deps = append(deps, "?")
+							}
+						} else {
+							deps = append(deps, at)
+						}
+					}
+				}
 				if rv := e.inlineCall(fr, st, t, fi, true); rv != nil {
 					k := e.tmp(types.ExprString(t))
+					if e.tmpDeps == nil {
+						e.tmpDeps = map[string][]string{}
+					}
+					e.tmpDeps[k] = deps
 					st.env[k] = rv
 					return e.canon(st, c05Atom(k))
 				}
@@ -1278,21 +1321,19 @@ func (e *c05Eng) assignLin(st *c05State, key string, l c05Lin) {
 	if sh, ok := e.shadow[key]; ok {
 		if g := e.canon(st, l); len(g.t) == 0 {
 			defer func() { st.env[sh] = c05Exact("", g.k) }()
+		} else if e.onlyDependsOn(g, key) {
+			// p = f(p) with f pure (oneIfZero(p), max(p,1), p): the variable still holds "the parameter"
+			defer func() {
+				if v, ok := st.env[key]; ok {
+					sv := v.clone()
+					sv.addLo(key, 0)
+					sv.addHi(key, 0)
+					st.env[sh] = sv
+					v.addLo(sh, 0)
+					v.addHi(sh, 0)
+				}
+			}()
 		}
-	}
-	if sh, ok := e.shadow[key]; ok {
-		if g := e.canon(st, l); len(g.t) == 0 {
-			defer func() { st.env[sh] = c05Exact("", g.k) }()
-		}
-	}
-	if os.Getenv("C05_DEBUG") == "3" && key == c05Row && len(e.stack) > 0 && strings.HasSuffix(e.stack[0].Name, "resize") {
-		var names []string
-		for _, f := range e.stack {
-			names = append(names, f.Decl.Name.Name)
-		}
-		defer func() {
-			fmt.Printf("DEBUG assign row := %s in %v -> %s ; len(active)=%s\n", e.showLin(l), names, e.showVal(e.valOf(st, key)), e.showVal(e.valOf(st, "len:@.activeScreen")))
-		}()
 	}
 	if g := e.canonGeo(st, l); len(g.t) == 1 && g.t[key] == 1 {
 		l = g
@@ -1409,6 +1450,29 @@ func (e *c05Eng) eliminate(st *c05State, key string) []c05Lin {
 		}
 	}
 	return out
+}
+
+// onlyDependsOn: every atom of l is key itself or the result of a pure call whose arguments
+// depend on nothing but key and constants.
+func (e *c05Eng) onlyDependsOn(l c05Lin, key string) bool {
+	for a := range l.t {
+		if a == key {
+			continue
+		}
+		if !c05IsTmp(a) {
+			return false
+		}
+		deps, ok := e.tmpDeps[a]
+		if !ok {
+			return false
+		}
+		for _, d := range deps {
+			if d != key {
+				return false
+			}
+		}
+	}
+	return true
 }
 
 func (e *c05Eng) killDependents(st *c05State, key string) {
@@ -2283,6 +2347,16 @@ func (e *c05Eng) bindRange(fr *c05Frame, st *c05State, rs *ast.RangeStmt) {
 			if t := fr.info.TypeOf(rs.Value); t != nil && isIntType(t) && len(d.lo) > 0 {
 				st.env[k] = d
 			}
+			// for _, line := range <screen>: len(line) is the screen's row length
+			if e.isGrid(fr.info.TypeOf(rs.X)) {
+				if xk := e.pathKey(fr, rs.X); xk != "" {
+					lv := e.evalLin(st, c05Atom(e.derived("rowlen:", xk)))
+					lk := e.derived("len:", k)
+					delete(lv.lo, lk)
+					delete(lv.hi, lk)
+					st.env[lk] = lv
+				}
+			}
 		}
 	}
 }
@@ -2719,45 +2793,74 @@ func c05Debug(c *Ctx) {
 
 // c05Funcs: the functions worth analysing (they store INV fields, index a grid, or call such functions).
 func c05Funcs(c *Ctx, e *c05Eng) []*FuncInfo {
-	var out []*FuncInfo
 	goals := e.goals()
-	for _, fi := range c.P.FuncsIn("widgets/term") {
+	all := c.P.FuncsIn("widgets/term")
+	want := map[*FuncInfo]bool{}
+	// functions whose own code matters: they store INV fields, index a screen, or append tab stops
+	for _, fi := range all {
 		if fi.Decl.Body == nil {
 			continue
 		}
 		info := fi.Pkg.TypesInfo
-		want := false
+		w := false
 		for _, g := range goals {
 			if c05Relevant(e.storesOf(fi), g.base) {
-				want = true
+				w = true
 			}
 		}
 		ast.Inspect(fi.Decl.Body, func(n ast.Node) bool {
 			switch x := n.(type) {
 			case *ast.IndexExpr:
 				if t := info.TypeOf(x.X); e.isGrid(t) || e.isRow(t) {
-					want = true
+					w = true
 				}
 			case *ast.CallExpr:
 				if id, ok := x.Fun.(*ast.Ident); ok && id.Name == "append" && len(x.Args) >= 2 {
 					if sl, ok := info.TypeOf(x.Args[0]).Underlying().(*types.Slice); ok && e.colT != nil && types.Identical(sl.Elem(), e.colT) {
-						want = true // tab stops
+						w = true // tab stops
 					}
 				}
-				if fn := calleeOf(info, x); fn != nil {
-					if cf := c.P.FuncOfObj(fn); cf != nil && cf.Pkg == e.pk {
-						sig := fn.Type().(*types.Signature)
-						for i := 0; i < sig.Params().Len(); i++ {
-							if e.isCountType(sig.Params().At(i).Type()) {
-								want = true
+			}
+			return !w
+		})
+		if w {
+			want[fi] = true
+		}
+	}
+	// and their callers, when they hand them a count (the callee's proof assumes it is >= 0)
+	for changed := true; changed; {
+		changed = false
+		for _, fi := range all {
+			if fi.Decl.Body == nil || want[fi] {
+				continue
+			}
+			info := fi.Pkg.TypesInfo
+			w := false
+			ast.Inspect(fi.Decl.Body, func(n ast.Node) bool {
+				if x, ok := n.(*ast.CallExpr); ok {
+					if fn := calleeOf(info, x); fn != nil {
+						if cf := c.P.FuncOfObj(fn); cf != nil && cf.Pkg == e.pk && want[cf] {
+							sig := fn.Type().(*types.Signature)
+							for i := 0; i < sig.Params().Len(); i++ {
+								if e.isCountType(sig.Params().At(i).Type()) {
+									w = true
+								}
 							}
 						}
 					}
 				}
+				return !w
+			})
+			if w {
+				want[fi] = true
+				changed = true
 			}
-			return !want
-		})
-		if want {
+		}
+	}
+	e.wanted = want
+	var out []*FuncInfo
+	for _, fi := range all {
+		if want[fi] {
 			out = append(out, fi)
 		}
 	}
@@ -3120,8 +3223,8 @@ func c05InvRound(c *Ctx, e *c05Eng, goals []c05Goal, ctxSet map[*FuncInfo]bool) 
 						return true
 					}
 					cf := c.P.FuncOfObj(cal)
-					if cf == nil || cf.Pkg != e.pk || ctxSet[cf] {
-						return true // contextual helpers are checked with the actual arguments
+					if cf == nil || cf.Pkg != e.pk || ctxSet[cf] || !e.wanted[cf] {
+						return true // contextual helpers are checked with the actual arguments; functions that are not analysed assume nothing
 					}
 					sig := cal.Type().(*types.Signature)
 					for i := 0; i < sig.Params().Len() && i < len(x.Args); i++ {
